@@ -83,3 +83,19 @@ Definition nr_sched_tids : list nat :=
   ([0;0;0;0] ++ [0;0;1;1] ++ [0;0;0] ++ [1;1;1;1;1] ++ [0;0;0;0;0] ++ [1] ++ [3;3;3;3;3] ++ [0] ++
    [2;2;2;3;3;3;1;1] ++ [2] ++ [3;1] ++ [1;1;1] ++ [3;3;3;3;3;3;3] ++ [3;3;3;3] ++ [1;1] ++ [3;2])%nat.
 Definition nr_sched : list (nat * unit) := map (fun t => (t, tt)) nr_sched_tids.
+
+(* ---- a concrete concurrent run WITH node reuse in which no link CAS hits a recycled node
+   (non-vacuity example of the aba-guarded theorems): three threads, ten operations, a pool of one
+   chunk; six pushes are served by three chunks ---- *)
+Definition rr_progs (t : nat) : list dop :=
+  match t with
+  | 0%nat => [Push SR 1; Pop SL; Push SR 2; Push SL 3]
+  | 1%nat => [Push SL 4; Pop SR; Push SR 5; Pop SL]
+  | 2%nat => [Pop SR; Push SL 6]
+  | _ => []
+  end.
+Fixpoint rr_sched (n : nat) : list (nat * unit) :=
+  match n with
+  | O => []
+  | S m => (0%nat, tt) :: (1%nat, tt) :: (1%nat, tt) :: (2%nat, tt) :: (0%nat, tt) :: rr_sched m
+  end.
